@@ -173,6 +173,10 @@ class DesugarError(Exception):
     pass
 
 
+class DesugarRenderError(DesugarError):
+    """a cell of a delivered row cannot be instantiated in its context (e.g. undefined variable)"""
+
+
 def _is_false(rendered: str) -> bool:
     return rendered.strip().lower() == "false"
 
@@ -197,7 +201,7 @@ def desugar(rows: list[dict], context: dict | None = None) -> list[dict]:
             else:
                 res = cp.parse_as_string(v, ctx)
                 if not isinstance(res, str):
-                    raise DesugarError(f"cell {k} does not render to text")
+                    raise DesugarRenderError(f"cell {k} does not render to text")
                 new[k] = res
         return new
 
@@ -274,7 +278,10 @@ def desugar(rows: list[dict], context: dict | None = None) -> list[dict]:
                     emit(r)
                 pos += 1
 
-    block(0, None, dict(context or {}), out.append)
+    from ..flows import LogCapture
+
+    with LogCapture():
+        block(0, None, dict(context or {}), out.append)
     return out
 
 
